@@ -69,3 +69,16 @@ func init() {
 		Mutant{ID: "C07-P10-evict-newest", File: "core/parsigdb/memory.go", Expect: "P10",
 			Old: "\t\tdb.evictExemptShareEntryUnsafe(ctx, stored[0], shareIdx)", New: "\t\tdb.evictExemptShareEntryUnsafe(ctx, k, shareIdx)"})
 }
+
+func init() {
+	// C01 (design §5): pipeline integrity re-uses the guards of the components on the path to the beacon node.
+	Link("C01", "C09", "(C09.G1/G2/G6) the aggregate handed on is the verified one, published all-or-nothing, with the verifying constructor wired.", []string{"G1", "G2", "G6"},
+		Mutant{ID: "C01-link-aggregate-verify-logged", File: "core/sigagg/sigagg.go", Expect: "C09.G1",
+			Old: "\t\tspan.SetStatus(codes.Error, err.Error())\n\n\t\treturn nil, err\n\t}\n\n\treturn aggSig, nil",
+			New: "\t\tspan.SetStatus(codes.Error, err.Error())\n\t}\n\n\treturn aggSig, nil"})
+	Link("C01", "C07", "(C07.P3/P4/P8) aggregation is triggered only with one message-root group of exactly threshold distinct shares.", []string{"P3", "P4", "P8"},
+		Mutant{ID: "C01-link-threshold-set-replaced", File: "core/parsigdb/memory.go", Expect: "C07.P3",
+			Old: "\t\tpsigs, ok, err := getThresholdMatching(duty.Type, sigs, db.threshold)", New: "\t\tpsigs, ok, err := getThresholdMatching(duty.Type, sigs, db.threshold)\n\t\tpsigs = sigs"})
+	Link("C01", "C06", "(C06.D2) a stored unsigned datum is never replaced by conflicting data.", []string{"D2"})
+	Link("C01", "C10", "(C10.H1/H3) only verified partial signatures enter the node.", []string{"H1", "H3"})
+}
